@@ -2,7 +2,8 @@ package template
 
 import (
 	"go/types"
-	"strings"
+	"unicode"
+	"unicode/utf8"
 )
 
 // Var represents a method variable/parameter.
@@ -171,5 +172,15 @@ func basicTypeVarName(b *types.Basic) string {
 	return "v"
 }
 
-func capitalise(s string) string   { return strings.ToUpper(s[:1]) + s[1:] }
-func deCapitalise(s string) string { return strings.ToLower(s[:1]) + s[1:] }
+// capitalise and deCapitalise change the case of the first rune (not the first
+// byte: type names may start with a multi-byte letter).
+func capitalise(s string) string   { return mapFirstRune(s, unicode.ToUpper) }
+func deCapitalise(s string) string { return mapFirstRune(s, unicode.ToLower) }
+
+func mapFirstRune(s string, f func(rune) rune) string {
+	r, size := utf8.DecodeRuneInString(s)
+	if size == 0 {
+		return s
+	}
+	return string(f(r)) + s[size:]
+}
